@@ -566,6 +566,12 @@ func runC13(c *core.Ctx) {
 			for _, split := range []bool{false, true} {
 				do(&c13Case{params: []string{"X", "ARG_1"}, tmpl: tu, site: "%s", args: [][]string{{"1", "v"}, {"a + b", "2"}, {"1", "v"}}, split: split})
 			}
+			// parameter names that are also names of extension functions, constants, keywords-like builtins or
+			// identifiers used by the call sites
+			for _, pn := range [][2]string{{"max", "len2"}, {"PI", "sin"}, {"v", "g"}, {"e5", "i"}, {"mm", "m2"}} {
+				tn := strings.ReplaceAll(strings.ReplaceAll(t, "unquote(x)", "unquote("+pn[0]+")"), "unquote(y)", "unquote("+pn[1]+")")
+				do(&c13Case{params: []string{pn[0], pn[1]}, tmpl: tn, site: "%s", args: [][]string{{"1", "v"}, {"a + b", "2"}}, split: false})
+			}
 			for _, t2 := range small[:12] {
 				if t2 == t {
 					continue
@@ -578,7 +584,7 @@ func runC13(c *core.Ctx) {
 				}
 			}
 		}
-		bounds = append(bounds, "ALL-CAPS parameter names with three uses; redefinition of the macro between two identical call texts (all pairs of small templates x 12)")
+		bounds = append(bounds, "ALL-CAPS parameter names with three uses; parameters named like extension functions / constants / identifiers of the call site; redefinition of the macro between two identical call texts (all pairs of small templates x 12)")
 	}
 	// F3: 0..4 parameters, each used 0..3 times
 	if ok {
